@@ -104,7 +104,7 @@ PROPS = {
                  "x a sweep: W is stalled at EVERY one of its scheduling points in turn, and inside its user function, while R runs alone. evaluations = executions. "
                  "Oracle: R never blocks (mutex/cond), never yields (spin), stays within 4x its quiescent step count + 64 of its own steps (decider 'stall'), and the complete "
                  "history is linearizable. Non-trivial = W was stalled strictly inside its call while R executed; distinct by hash(program, stall point). "),
-    "C10": plain([part("keys", "^TestC10$", 400, 12000, shards=8, steps=40, tsteps=60)],
+    "C10": plain([part("keys", "^TestC10$", 400, 12000, shards=8, steps=40, tsteps=60), part("kv", "^TestC10KV$", 160, 6000, shards=8)],
                  "Cases are generated call sequences (Load, Store, LoadOrStore, LoadAndStore, LoadAndDelete, Delete, Compute store/delete, pointee mutation) over "
                  "a per-type key pool that contains ==-equal keys with different representations (strings in different backing arrays, +0/-0, structs whose padding bytes are "
                  "0xFF garbage, interface values holding equal dynamic values, the nil interface, nil and non-nil pointers) and unequal look-alikes, for 32 key types "
@@ -112,7 +112,10 @@ PROPS = {
                  "array of interfaces, empty struct, padded struct, nested struct, struct with embedded struct and arrays of structs, struct with interface field, any, non-empty interface, and four pointer-free shapes whose ignored bytes are filled with different garbage per key: arrays of structs with trailing padding, a struct nesting them, arrays of structs with blank fields, arrays of pointer+byte structs), on MapOf (default / constant hasher / presized) and CacheOf. Oracle: a builtin map[K]int fed the same calls (every result, "
                  "values handed to Compute, Range as a set, Size); any panic on a valid key is a violation. evaluations = cases; non-trivial = an ==-equal key with a different "
                  "representation was used for a lookup, or all hashes collide (constant hasher), or a lookup followed a mutation of memory the key points to; distinct by hash of (type, container, calls). "
-                 "The per-process hash key varies between the shard processes."),
+                 "The per-process hash key varies between the shard processes. Part `kv`: the VALUE type as a dimension of its own - 14 (K,V) pair types whose entry objects differ in size, "
+                 "pointer content and allocator alignment class (uint16->uint16, uint8->uint8, int16->bool, uint8->struct{}, struct{uint8,uint8}->uint8, uint16->[3]uint8, int32->int32, uint32->float32, int->*int, string->string, string->bool, "
+                 "int->[5]int64, int64->any incl. nil, bool->uint8) on MapOf (default, presized 4096, constant hasher) and CacheOf (default, min capacity 2000): generated phases of bulk stores / bulk deletes of up to 4096 pairs and single calls, "
+                 "after each phase every key of the span, Size and Range as a set against a builtin map[K]V. Non-trivial there = at least 200 pairs were stored."),
     "C11": instr([part("seq", "^TestC11$", 120, 4000, steps=120, tsteps=160, env={"GOMAXPROCS": 4})],
                  "Cases are generated long call sequences (all nine mutators incl. Compute with every present/absent x store/delete combination, bulk inserts and bulk deletes of "
                  "50-20000 keys over universes up to 120000 keys (tables of thousands of buckets) that cross every grow and shrink threshold several times, Clear; run with GOMAXPROCS=4 so that a resize that works with helper goroutines really runs in parallel) executed simultaneously on instance A "
@@ -139,10 +142,10 @@ PROPS = {
                  assumptions=["OS-scheduled: not reproducible by seed; absence of race reports is not absence of races."]),
     "C15": plain([npart("janitor", "^TestC15$", {"shards": 4, "checks": 1, "timeout": 900, "env": {"VERIF_C15_CONFIGS": 16}},
                         {"shards": 4, "checks": 1, "timeout": 3 * 3600, "env": {"VERIF_C15_CONFIGS": 800}})],
-                 "Cases are generated configurations (constructor variant x Cache/CacheOf x cleanup interval in {-5,0,2,3,5,10,20} ms x 1-60 caches x 0-50 entries with 1 ms TTL x 0-50 "
+                 "Cases are generated configurations (constructor variant x Cache/CacheOf x cleanup interval in {-5,0,2,3,5,10,20 ms, 1 min (nothing can be swept within the test: only construction and the drop are observed - the janitor must die with the cache at once, not at its next tick)} x 1-60 caches x 0-50 entries with 1 ms TTL x 0-50 "
                  "never-expiring entries x callback yes/no x 1-6 waves of further expiring entries stored either the moment a janitor pass is seen at work (first removal observed: mid-sweep) or after a pause of 0.3-15 ms x 0/50000/150000 never-expiring ballast entries that stretch every pass to milliseconds x callback replaced after construction (other ledger / nil) x one slow callback) run in real time. Oracle: interval > 0: with no user call on the keys Count() drops to the never-expiring population within "
                  "max(200 intervals, 5 s) and the callback ledger holds every expired key exactly once and nothing else; interval > 0 also: in a third of the configurations the first evicted callback takes max(40 intervals, 300 ms) once (one sweep overruns), and after all waves three probe entries, each stored right after the previous one was seen removed, must be gone within max(25 intervals, 250 ms) - the pace may not depend on history; interval <= 0: Count() is "
-                 "unchanged and no callback fires during a 60 ms window, DeleteExpired then cleans exactly; finally, after dropping all references and polling runtime.GC(), "
+                 "unchanged and no callback fires during a 60 ms window, DeleteExpired then cleans exactly; in half of the configurations the youngest half of the caches (and the auxiliary cache, the youngest of all) is dropped first and must be released while the older half stays in use; finally, after dropping all references and polling runtime.GC(), "
                  "runtime.NumGoroutine() is back at its baseline and a finalizer sentinel stored in a cache of the same kind has been released, within 10 s. A missed deadline is "
                  "re-run once in isolation; only a repeated miss is a violation. evaluations = cases; non-trivial = janitor configured with >= 1 expiring entry, or >= 2 caches dropped; "
                  "distinct by hash of the configuration.",
